@@ -64,6 +64,16 @@ fn main() {
         println!("// features: {:?}\n{}", f, t);
         return;
     }
+    if args.len() >= 4 && args[1] == "dumptree" {
+        par::install_panic_hook();
+        let text = std::fs::read_to_string(&args[3]).expect("read");
+        let t = rs::Tgt::from_name(&args[2]);
+        match rs::compile_text(&text, &rs::Opts::new(t, rs::Mode::NoPipeline)) {
+            rs::Outcome::Ok(p) => println!("{:#?}", p[0].tree),
+            o => println!("{}", o.brief()),
+        }
+        return;
+    }
     if args.len() >= 3 && args[1] == "dump" {
         dump(&args[2]);
         return;
